@@ -93,45 +93,44 @@ Proof. exact facts_listed_blocking. Qed.
 Print Assumptions C08_blocking_while_holding_a_lock_only_at_reviewed_sites.
 
 (* From micro-steps to atomic sections (programs with data; Monitor.v section Data): threads are
-   resumptions -- what a call does next may depend on every value it has read -- over one RW mutex,
-   critical sections not nested, no goroutine creation.  If every thread obeys the lock discipline
-   ([pok]: shared fields are read only under the lock, written only under the exclusive lock, fields
-   read without the lock are never written) then every configuration the micro-step machine reaches,
-   with reads and writes of different threads interleaved arbitrarily, is matched by a configuration
-   of the machine that has NO locks and runs each critical section from acquire to release in ONE
-   step: threads outside a section are in the same state, and whenever no writer is inside a section
-   the stores are equal.  The atomic machine takes a section's step when the micro-step machine
-   performs its release, i.e. between the call's first and last action.  The discipline on
-   resumptions follows from the discipline [ok] on their lock/access traces, which is what
-   harness/lockfacts extracts and C08_lock_discipline_holds checks. *)
+   resumptions -- what a call does next may depend on every value it has read.  Mutex 0 is the
+   object's outer RW lock; a critical section = from its acquisition to its release.  Covered:
+   inner mutexes taken inside an exclusive outer section and released before it (the pair
+   DeferredCarWriter.lk -> StorageCar.mu), hand-off of a shared section to a new goroutine that
+   finishes it (ReadOnly.AllKeysChan), goroutines started inside an exclusive section that do nothing
+   before they lock or return (ReadWrite.AllKeysChan after the repair).
+   If every thread obeys the lock discipline ([pok]: shared fields are read only under their lock,
+   written only under it exclusively, fields read without a lock are never written, the nesting and
+   hand-off rules above) then every configuration the micro-step machine reaches, with reads and
+   writes of different threads interleaved arbitrarily, is matched by a configuration of the machine
+   that has NO locks and runs each critical section -- inner locks, handed-off part and all -- in ONE
+   step: threads that hold nothing are in the same state ([main]; the goroutines [pend] that an open
+   exclusive section has already started exist only in the micro-step machine until the section ends),
+   and whenever no writer is inside a section the stores are equal.  The atomic machine takes a
+   section's step when the micro-step machine releases mutex 0, or, for a shared section that is handed
+   off, at the hand-off: in both cases between the call's first and last action. *)
 Theorem C08_micro_steps_reduce_to_atomic_sections :
-  forall (V R : Type) (exempt : nat -> bool) (s : store V) (ps : list (prog V R)) (c : dcfg V R),
-    Forall (pok V R exempt None) ps ->
+  forall (V R : Type) (exempt : nat -> bool) (guard : nat -> nat)
+         (s : store V) (ps : list (prog V R)) (c : dcfg V R),
+    Forall (pok V R exempt guard true []) ps ->
     dsteps V R (dinit V R s ps) c ->
-    exists a, asteps V R exempt (ainit V R s ps) a /\
-      Forall2 (fun t p => dh V R t = None -> p = dp V R t) (dts V R c) (ats V R a) /\
-      (dwl V R c = false -> forall f, dst V R c f = ast V R a f).
+    exists a main pend, asteps V R exempt (ainit V R s ps) a /\
+      dts V R c = main ++ map (fun p => {| dh := []; dp := p |}) pend /\
+      Forall2 (fun t p => hget (dh V R t) 0 = None -> p = dp V R t) main (ats V R a) /\
+      (wl (dlk V R c 0) = false -> pend = [] /\ forall f, dst V R c f = ast V R a f).
 Proof. exact micro_steps_reduce_to_atomic_sections. Qed.
 Print Assumptions C08_micro_steps_reduce_to_atomic_sections.
 
 Theorem C08_terminated_runs_are_runs_of_atomic_sections :
-  forall (V R : Type) (exempt : nat -> bool) (s : store V) (ps : list (prog V R)) (c : dcfg V R) (rs : list R),
-    Forall (pok V R exempt None) ps ->
+  forall (V R : Type) (exempt : nat -> bool) (guard : nat -> nat)
+         (s : store V) (ps : list (prog V R)) (c : dcfg V R) (rs : list R),
+    Forall (pok V R exempt guard true []) ps ->
     dsteps V R (dinit V R s ps) c ->
-    dts V R c = map (fun r => {| dh := None; dp := PRet V R r |}) rs ->
+    dts V R c = map (fun r => {| dh := []; dp := PRet V R r |}) rs ->
     exists a, asteps V R exempt (ainit V R s ps) a /\ ats V R a = map (PRet V R) rs /\
               forall f, dst V R c f = ast V R a f.
 Proof. exact terminated_runs_are_atomic. Qed.
 Print Assumptions C08_terminated_runs_are_runs_of_atomic_sections.
-
-Theorem C08_trace_discipline_gives_program_discipline :
-  forall (V R : Type) (exempt : nat -> bool) (v0 : V) (listed : nat -> bool) (tbl : list (held * path))
-         (p : prog V R) (h : option mode),
-    (forall t, ptrace V R p t ->
-       ok (fun _ => 0%nat) exempt listed tbl (match h with Some md => [(0%nat, md)] | None => [] end) t = true) ->
-    pok V R exempt h p.
-Proof. exact pok_of_traces. Qed.
-Print Assumptions C08_trace_discipline_gives_program_discipline.
 
 (* Linearizability, stated over the atomic-section semantics: every call is an invocation, ONE atomic
    step of the sequential specification (its critical section) and a response.  Every such execution
